@@ -270,10 +270,11 @@ class SimConnection(Connection):
 
 class Pending:
     """A request a FakeNode owes an answer to."""
-    __slots__ = ("conn", "frame", "req", "seq")
+    __slots__ = ("conn", "frame", "req", "seq", "_pages")
 
     def __init__(self, conn, frame, req, seq):
         self.conn, self.frame, self.req, self.seq = conn, frame, req, seq
+        self._pages = 0
 
     def __repr__(self):
         return "Pending(#%d conn=%d stream=%d %s)" % (self.seq, self.conn.sim_id, self.frame.stream, self.req.get("op"))
@@ -386,11 +387,11 @@ class FakeNode:
         elif op == wire.STARTUP:
             if self.require_auth:
                 self.send(conn, v, f.stream, wire.AUTHENTICATE, wire.body_authenticate())
-                if v >= 5:
+                if 5 <= v < 0x41:          # checksummed framing: v5/v6 only, not the DSE versions
                     self.seg_state[conn] = True
             else:
                 self.send(conn, v, f.stream, wire.READY, wire.body_ready())
-                if v >= 5:
+                if 5 <= v < 0x41:          # checksummed framing: v5/v6 only, not the DSE versions
                     self.seg_state[conn] = True
                 conn._sim_ready = True
         elif op == wire.AUTH_RESPONSE:
